@@ -59,6 +59,8 @@ __CPROVER_ensures((!OKRET && G_close_calls == 0) ==> (G_hs_calls == 1 && G_hs_rc
 __CPROVER_ensures((!OKRET && G_close_calls == 0) ==> (G_cb_calls == 0 && G_read_calls == 0 && G_mod_calls == 1 && G_cancel_hs_calls == 0 && s->tlsState == TlsState_Handshake))
 __CPROVER_ensures((!OKRET && G_close_calls == 0) ==> (s->tlsWantWrite == (G_geterr == SSL_ERROR_WANT_WRITE)
      && ((G_mod_ev & EPOLLOUT) != 0) == (G_geterr == SSL_ERROR_WANT_WRITE || s->wantWrite || s->wq.n != 0) && (G_mod_ev & EPOLLIN) != 0 && G_mod_fd == s->fd))
+/* HS5b WANT_READ / WANT_WRITE (accepted by the hook) never closes: the handshake simply continues on the next event */
+__CPROVER_ensures((G_hs_calls == 1 && G_hs_rc != 1 && G_geterr_calls == 1 && WANT && G_after_ok) ==> (!OKRET && G_close_calls == 0))
 /* HS6 failure (timeout, hook rejection, any other SSL error): closed EXACTLY once with TLSHandshake, nothing announced, nothing re-armed, no read */
 __CPROVER_ensures(!OKRET ==> G_close_calls <= 1)
 __CPROVER_ensures((!OKRET && G_close_calls == 1) ==> (G_close_code == TransportError_TLSHandshake && G_cb_calls == 0 && G_mod_calls == 0 && G_read_calls == 0))
